@@ -27,4 +27,57 @@ theorem C09_nonvacuous : 10 ≤ (crashStates saveOps).length := by decide
 data and without a save directory (main.rs) — that branch is what `C09` shows unreachable by a crash. -/
 theorem C09_fallback_is_silent : restoreFailureDisablesSaving = true := by decide
 
+/-! ## histories: any number of saves, each completed or cut short, with whatever an earlier crash left -/
+
+/-- Every state a save can start in after any past: each data file complete (previous or new version),
+its temporary sibling in *any* condition (absent, empty, torn, or a complete stale copy). -/
+def startStates : List Fs :=
+  let cs : List Content := [.old, .new, .torn, .empty, .absent]
+  let files : List FileState := [Content.old, Content.new].flatMap fun f => cs.map fun t => ⟨f, t⟩
+  files.flatMap fun a => files.map fun b => ⟨a, b⟩
+
+def goodStart (fs : Fs) : Bool := restorable fs.freq.file && restorable fs.dic.file
+
+theorem startStates_complete (fs : Fs) (h : goodStart fs = true) : fs ∈ startStates := by
+  obtain ⟨⟨ff, ft⟩, ⟨df, dt⟩⟩ := fs
+  simp only [goodStart, restorable, Bool.and_eq_true, Bool.or_eq_true, decide_eq_true_eq] at h
+  rcases h with ⟨h1 | h1, h2 | h2⟩ <;> subst h1 <;> subst h2 <;> cases ft <;> cases dt <;> decide
+
+/-- From every such start — stale or torn temporary files included — a crash at any instant of the save
+leaves both data files complete, and a completed save leaves the new version of both with no temporary
+file behind. -/
+theorem C09_from_any_leftover :
+    startStates.all (fun st =>
+      (crashStatesFrom st saveOps).all startupOk &&
+      decide ((completeFrom st saveOps).freq = ⟨.new, .absent⟩ ∧ (completeFrom st saveOps).dic = ⟨.new, .absent⟩)) = true := by
+  decide
+
+/-- The file system after a history of saves, each completed or crashed at some instant. -/
+inductive Reachable : Fs → Prop
+  | start (fs : Fs) : goodStart fs = true → Reachable fs
+  | crashed (fs fs' : Fs) : Reachable fs → fs' ∈ crashStatesFrom fs saveOps → Reachable fs'
+  | completed (fs : Fs) : Reachable fs → Reachable (completeFrom fs saveOps)
+
+/-- **At whatever instants the process dies, in any history of saves and restarts, both data files hold a
+complete version** — so every start restores both and periodic saving keeps working: the next completed
+save again ends with the new version of both files. -/
+theorem C09_history (fs : Fs) (h : Reachable fs) :
+    startupOk fs = true ∧
+    (completeFrom fs saveOps).freq = ⟨.new, .absent⟩ ∧ (completeFrom fs saveOps).dic = ⟨.new, .absent⟩ := by
+  have key : ∀ st, goodStart st = true →
+      (∀ x ∈ crashStatesFrom st saveOps, startupOk x = true) ∧
+      (completeFrom st saveOps).freq = ⟨.new, .absent⟩ ∧ (completeFrom st saveOps).dic = ⟨.new, .absent⟩ := by
+    intro st hst
+    have := List.all_eq_true.1 C09_from_any_leftover st (startStates_complete st hst)
+    simp only [Bool.and_eq_true, decide_eq_true_eq, List.all_eq_true] at this
+    exact ⟨this.1, this.2⟩
+  have good : goodStart fs = true := by
+    induction h with
+    | start fs h => exact h
+    | crashed fs fs' _ hmem ih => exact (key fs ih).1 fs' hmem
+    | completed fs _ ih =>
+      obtain ⟨_, h1, h2⟩ := key fs ih
+      simp [goodStart, restorable, h1, h2]
+  exact ⟨good, (key fs good).2⟩
+
 end Chokan.Props.C09
